@@ -82,6 +82,25 @@ else:
      _tier('ev', 'sum', 0, [], [(2, {})], optional=True), _tier('ev', 'sum_transpose', 1, [], [(2, {})], optional=True), _tier('ev', 'sum_add_scalar', 1, [], [(2, {})], optional=True),
      _tier('ev', 'flatten_pad', 1, [], [(2, {})], optional=True), _tier('ev', 'reshape_flip_pad', 0, [], [(2, {})], optional=True), _tier('cl', 'sum_transpose', 1, [], [(2, {})], optional=True),
     ]
+# ---- element type of the evaluated array (view element type differs from the operand's): separate small TU, one per resolver
+for _r, _n in ((0, 'old'), (1, 'row'), (2, 'col')):
+    KERNELS['C10_etype_%s' % _n] = dict(src='kernels/C10_etype.cpp', flags=['-DNDEBUG', '-DRES=%d' % _r])
+def _et(prog, res, quick, thorough, **kw):
+    n = {0: 'old', 1: 'row', 2: 'col'}[res]
+    US = ['h_etype.0:18', 'k_fill_u8.0:18', 're:evaluator_t:18']
+    return dict(name='et_%s_%s' % (prog, n), src='harnesses/C10_etype.c', func='h_etype', kernels=['C10_etype_%s' % n], unwind=6,
+                bounds='uint8 operand, unsigned scalar (view element type unsigned != operand element type), resolver %s; shape symbolic with extents 1..MAXE or the per-query constant SH0,SH1; '
+                       'data, scalar and index symbolic; asserted: evaluated element == view element == (unsigned)a[i]+s and the evaluated array stores 4-byte elements' % n,
+                quick=[dict(c, PROG=prog, RES=res, _unwindset=US) for c in quick], thorough=[dict(c, PROG=prog, RES=res, _unwindset=US) for c in thorough], **kw)
+if not os.environ.get('C10_ALL'):
+    HARNESSES += [
+     _et('adds_h', 0, [{'MAXE': 2}], [{'MAXE': 3, '_mem_gb': 14}], mem_gb=8), _et('adds_h', 1, [], [{'MAXE': 2}], mem_gb=14), _et('adds_h', 2, [], [{'MAXE': 2}], mem_gb=14, optional=True),
+     _et('adds_flip_h', 0, [], [{'MAXE': 2}], mem_gb=14), _et('adds_f', 0, [{'MAXE': 3}], [{'MAXE': 3}], mem_gb=6), _et('adds_f', 1, [{'MAXE': 3}], [{'MAXE': 3}]),
+     # dynamic operand (the resolver branch "dynamic view over a dynamic array"): utl::vector-backed ndarray_t returns a verdict (850 s / 12 GB at the constant shape (1,2)): thorough tier;
+     # std::vector-backed dynamic_ndarray: no verdict in 900 s (formula construction) - optional
+     _et('adds_u', 0, [], [{'MAXE': 2, 'SH0': 1, 'SH1': 2}, {'MAXE': 2, 'SH0': 2, 'SH1': 1}], mem_gb=14, timeout=3000),
+     _et('adds_d', 0, [], [{'MAXE': 2, 'SH0': 1, 'SH1': 2}], mem_gb=14, timeout=1800, optional=True),
+    ]
 _WHAT_KF = ('array::eval(view) with its DEFAULT resolver template argument (eval_t) chooses the result buffer from the OPERAND type: over a hybrid operand of capacity C the result is a hybrid array of '
             'capacity C even for views that are larger than their operand (tile, pad). The refused resize leaves the result at its default shape, the evaluator returns early (shape mismatch: '
             'nmtools_verif_eval_shape_mismatch and the capacity hook fire) and eval returns an unwritten array of shape (1,1) instead of the view\'s shape. array::tile / array::pad (RowMajorResolver) are not affected. ')
